@@ -13,6 +13,9 @@ from simlib import bootstrap, sched as S
 
 ID = "C13"
 LEVEL = "exploration"
+# a worker that hangs or blows up in native code while running a case of this
+# property is re-run in a sandboxed interpreter; a second hang is the verdict
+HANG_IS_VIOLATION = True
 TECHNIQUE = ("deterministic simulation: real LazyPool on a seeded baton "
              "scheduler (queue-operation and line-level pre-emption), exact "
              "deadlock detection, fault = mapped function raising")
